@@ -918,6 +918,27 @@ def perturbed_loads(ctx: Ctx, path: str, desc: str, req, out, dsc):
             ctx.mark(("pipeline-perturbed", desc, kind))
 
 
+def build_pipeline_doc(spec):
+    """the document a pipeline spec describes (deterministic: used by the run and by `replay`)."""
+    import numbers_parser
+    nr, nc = spec["rows"], spec["cols"]
+    doc = numbers_parser.Document(num_rows=nr, num_cols=nc, num_header_rows=min(1, nr - 1) if nr > 1 else 0,
+                                  num_header_cols=min(1, nc - 1) if nc > 1 else 0)
+    table = doc.sheets[0].tables[0]
+    style = doc.add_style(name="c01 pipeline", bold=True, bg_color=numbers_parser.RGB(10, 20, 30)) if spec["styled"] else None
+    for r, c, jv, styled, places in spec["writes"]:
+        v = unj(jv)
+        if styled:
+            table.write(r, c, v, style=style)
+        else:
+            table.write(r, c, v)
+        if places is not None:
+            table.set_cell_formatting(r, c, "number", decimal_places=places)
+    for m in spec["merges"]:
+        table.merge_cells(m)
+    return doc, table
+
+
 def check_pipeline(ctx: Ctx):
     import numbers_parser
     rng = ctx.rng
@@ -925,23 +946,17 @@ def check_pipeline(ctx: Ctx):
     for desc, nr, nc, writes, merges, styled in pipeline_docs(ctx):
         with warnings.catch_warnings():
             warnings.simplefilter("ignore")
-            doc = numbers_parser.Document(num_rows=nr, num_cols=nc, num_header_rows=min(1, nr - 1) if nr > 1 else 0,
-                                          num_header_cols=min(1, nc - 1) if nc > 1 else 0)
-            table = doc.sheets[0].tables[0]
-            style = doc.add_style(name="c01 pipeline", bold=True, bg_color=numbers_parser.RGB(10, 20, 30)) if styled else None
+            spec = {"pipeline": True, "desc": desc, "rows": nr, "cols": nc, "merges": merges, "styled": styled, "writes": []}
             written = {}
             for r, c, v in writes:
-                if styled and rng.random() < 0.2:
-                    table.write(r, c, v, style=style)
-                else:
-                    table.write(r, c, v)
+                if isinstance(v, str) and len(v) > 64:
+                    v = v[:64]
+                num = isinstance(v, (int, float)) and not isinstance(v, bool)
+                spec["writes"].append([r, c, jvalue(v), bool(styled and rng.random() < 0.2),
+                                       rng.randint(0, 4) if styled and num and rng.random() < 0.3 else None])
                 written[(r, c)] = v
-                if styled and isinstance(v, (int, float)) and not isinstance(v, bool) and rng.random() < 0.3:
-                    table.set_cell_formatting(r, c, "number", decimal_places=rng.randint(0, 4))
-            for m in merges:
-                table.merge_cells(m)
-            inp = {"pipeline": True, "desc": desc, "rows": nr, "cols": nc, "merges": merges, "styled": styled,
-                   "writes": [[r, c, jvalue(v)] for r, c, v in writes[:400]]}
+            inp = spec
+            doc, table = build_pipeline_doc(spec)
             d = tempfile.mkdtemp(prefix="c01p-")
             wide_before = wide_rows_flag(doc._model, table._table_id)
             try:
@@ -983,7 +998,7 @@ def check_pipeline(ctx: Ctx):
                 if why:
                     ctx.violation(f"{jvalue(v)['type']}-not-read-back-exactly",
                                   f"'{desc}': wrote {v!r:.120} at ({r},{c}); after save/reopen: {why}",
-                                  {"row": r, "col": c, "value": jvalue(v), "shape": [nr, nc], "pipeline_doc": desc})
+                                  {"row": r, "col": c, "expected": jvalue(v), "pipeline_spec": spec})
             for r in range(nr):
                 for c in range(nc):
                     if (r, c) in written:
@@ -992,7 +1007,7 @@ def check_pipeline(ctx: Ctx):
                     want = "MergedCell" if (r, c) in merged_refs else "EmptyCell"
                     if cls != want:
                         ctx.violation("unwritten-cell-not-empty", f"'{desc}': cell({r},{c}) never written, reopened as {cls}, expected {want}",
-                                      {"row": r, "col": c, "shape": [nr, nc], "pipeline_doc": desc})
+                                      {"row": r, "col": c, "expected": None, "pipeline_spec": spec})
             ctx.count("whole table: cells of API-built documents saved, reopened, compared exactly", n)
     correspond_long(ctx, "recalculate_table_data (via Document.save; objects read back from the saved file) vs saveTable",
                     req_s, out_s, describe=dsc_s)
@@ -1019,6 +1034,23 @@ def replay(data):
     from numbers_parser import cell as C
     inp = data.get("input", {})
     res = {}
+    spec = inp.get("pipeline_spec") or (inp if inp.get("pipeline") else None)
+    if spec:                                                       # a whole API-built document of check_pipeline
+        with warnings.catch_warnings():
+            warnings.simplefilter("ignore")
+            doc, _ = build_pipeline_doc(spec)
+            try:
+                t2 = save_reopen(doc).sheets[0].tables[0]
+            except Exception as e:  # noqa: BLE001
+                return {"document": spec["desc"], "save_reopen_raises": exc_name(e) + ": " + str(e)[:200]}
+            res = {"document": spec["desc"], "reopened_shape": [t2.num_rows, t2.num_cols]}
+            if "row" in inp:
+                cell = t2.cell(inp["row"], inp["col"])
+                res.update({"cell": [inp["row"], inp["col"]], "read_class": type(cell).__name__, "read_value": repr(cell.value)[:200],
+                            "expected": inp.get("expected")})
+                if inp.get("expected") is not None:
+                    res["equal"] = same_value(unj(inp["expected"]), cell) is None
+        return res
     if "value" in inp and isinstance(inp["value"], str):          # component-level number
         v = int(inp["value"]) if inp.get("type") == "int" else float(inp["value"])
         b = bytes(C._pack_decimal128(v))
